@@ -709,6 +709,35 @@ theorem wellHomed_patch {ord : List Nat} : ∀ (fs : List Fn) {t : Table}, WellH
     · simp [e, home]
     · simp only [e, if_false]; exact hw s hs
 
+theorem patch_congr : ∀ (fs : List Fn) (t t' : Table), (∀ q, q ≠ 3 → t q = t' q) → ∀ q, q ≠ 3 → patch t fs q = patch t' fs q
+  | [], _, _, h, q, hq => h q hq
+  | f :: fs, t, t', h, q, hq => by
+    simp only [patch]
+    apply patch_congr fs _ _ _ q hq
+    intro q' hq'
+    simp only [Table.set]
+    split
+    · rfl
+    · exact h q' hq'
+
+theorem restore_congr : ∀ (fs : List Fn) (t t' : Table), (∀ q, q ≠ 3 → t q = t' q) → ∀ q, q ≠ 3 → restore t fs q = restore t' fs q
+  | [], _, _, h, q, hq => h q hq
+  | f :: fs, t, t', h, q, hq => by
+    simp only [restore]
+    apply restore_congr fs _ _ _ q hq
+    intro q' hq'
+    simp only [Table.set]
+    split
+    · rfl
+    · exact h q' hq'
+
+theorem captured_congr (ord : List Nat) (h3 : 3 ∉ ord) (t t' : Table) (h : ∀ q, q ≠ 3 → t q = t' q) :
+    captured t ord = captured t' ord := by
+  unfold captured
+  apply List.map_congr_left
+  intro s hs
+  exact h s (fun e => h3 (e ▸ hs))
+
 end Retain
 
 end PP.Batch
